@@ -69,6 +69,31 @@ def executed_failure(scen, judged):
     return any(scen["calls"][i].get("fail") for i in ex if i < len(scen["calls"]))
 
 
+def depends_on_failed(scen, judged, i):
+    """call i depends (through any number of steps) on a call that was executed and raised"""
+    if i is None:
+        return False
+    from .sysmap import deps_of
+
+    ex = set(judged["info"].get("executed", []))
+    failed = {j for j in ex if j < len(scen["calls"]) and scen["calls"][j].get("fail")}
+    # only a call ALL of whose own inputs are settled can be resolved (executorlib waits for every input; with block allocation
+    # an input queued behind the failed call may never run)
+    states = judged["info"].get("final_states") or {}
+    if any(states.get(str(j), "pending") in ("pending", "running") for j in deps_of(scen["calls"][i])):
+        return False
+    seen, todo = set(), [i]
+    while todo:
+        k = todo.pop()
+        for j in deps_of(scen["calls"][k]):
+            if j in failed:
+                return True
+            if j not in seen and j < len(scen["calls"]):
+                seen.add(j)
+                todo.append(j)
+    return False
+
+
 def region_of(scen, judged, oracle):
     """Signature of the known-finding region a failing oracle falls into (None = outside all)."""
     ex = scen["executor"]
@@ -130,8 +155,10 @@ def relevant(prop, judged, scen):
     for o in judged["oracles"]:
         if prop in ORACLE_PROPS.get(o["oracle"], set()):
             # block allocation promises nothing about calls queued behind a failed one (C04 statement)
+            # … but "a call that depends on a failed future fails too instead of waiting for ever" holds in every mode: a pending
+            # (transitive) dependent of a call that failed is judged
             if o["oracle"] in ("lost_future", "not_done_after_wait") and executed_failure(scen, judged) and (
-                    scen["executor"].get("block_allocation")) and prop in ("C04",):
+                    scen["executor"].get("block_allocation")) and prop in ("C04",) and not depends_on_failed(scen, judged, o.get("i")):
                 continue
             out.append(o)
     return out
